@@ -23,6 +23,7 @@ package sorted_set
 //@ func (*SortedSet).Remove noalloc props C17
 //@   preserves alloc, exists
 //@   ensures removed: !has(set.members, v) && result == old(has(set.members, v))
+//@   ensures card: len(set.members) == old(len(set.members)) - (result ? 1 : 0)
 //@   ensures others: forall x Value :: x != v ==> (has(set.members, x) <==> old(has(set.members, x))) && set.members[x] == old(set.members[x])
 //@   modifies set.members[*]
 
@@ -147,12 +148,20 @@ package sorted_set
 //@   ensures {C17} plain-members: updatePolicy == nil && comparison == nil && changed == nil && incr == nil ==> result1 == nil && (forall i int :: 0 <= i && i < len(members) ==> has(set.members, members[i].Value))
 //@   ensures {C17} plain-others: updatePolicy == nil && comparison == nil && changed == nil && incr == nil ==> (forall v Value :: !(exists i int :: 0 <= i && i < len(members) && members[i].Value == v) ==> (has(set.members, v) <==> old(has(set.members, v))) && set.members[v] == old(set.members[v]))
 //@   ensures {C17} plain-last: updatePolicy == nil && comparison == nil && changed == nil && incr == nil && len(members) > 0 ==> set.members[members[len(members)-1].Value].Score == members[len(members)-1].Score
-//@   ensures {C17} nx-keeps: result1 == nil && updatePolicy != nil && lower(asstr(updatePolicy)) == "nx" && incr == nil ==> (forall v Value :: old(has(set.members, v)) ==> has(set.members, v) && set.members[v] == old(set.members[v]))
-//@   ensures {C17} xx-nonew: result1 == nil && updatePolicy != nil && lower(asstr(updatePolicy)) == "xx" && incr == nil ==> (forall v Value :: has(set.members, v) <==> old(has(set.members, v)))
+//@   ensures {C17} nx-keeps: result1 == nil && updatePolicy != nil && lower(asstr(updatePolicy)) == "nx" ==> (forall v Value :: old(has(set.members, v)) ==> has(set.members, v) && set.members[v] == old(set.members[v]))
+//@   ensures {C17} xx-nonew: result1 == nil && updatePolicy != nil && lower(asstr(updatePolicy)) == "xx" ==> (forall v Value :: has(set.members, v) <==> old(has(set.members, v)))
+//@   ensures {C17} incr-new: result1 == nil && incr != nil && updatePolicy == nil && comparison == nil && len(members) == 1 && !old(has(set.members, members[0].Value)) ==> has(set.members, members[0].Value) && set.members[members[0].Value].Score == members[0].Score
+//@   ensures {C17} incr-existing: result1 == nil && incr != nil && updatePolicy == nil && comparison == nil && len(members) == 1 && old(has(set.members, members[0].Value)) ==> has(set.members, members[0].Value) && set.members[members[0].Value].Score == old(set.members[members[0].Value].Score) + members[0].Score
+//@   ensures {C17} incr-others: incr != nil && len(members) == 1 ==> (forall v Value :: v != members[0].Value ==> (has(set.members, v) <==> old(has(set.members, v))) && set.members[v] == old(set.members[v]))
 //@   ensures {C17} failed: result1 != nil && incr == nil ==> (forall v Value :: (has(set.members, v) <==> old(has(set.members, v))) && set.members[v] == old(set.members[v]))
 //@   modifies set.members[*]
 //@   loop 0
-//@     invariant inv(set, alloc) && inv(set, exists) && set.members == old(set.members)
+//@     invariant inv(set, alloc) && inv(set, exists) && set.members == old(set.members) && -1 <= rangeindex && rangeindex < len(members) && len(members) == 1
+//@     invariant incr != nil && (updatePolicy == nil ? policy == "" : policy == asstr(updatePolicy)) && (lower(policy) == "nx" || lower(policy) == "xx" || policy == "")
+//@     invariant rangeindex == -1 ==> (forall v Value :: (has(set.members, v) <==> old(has(set.members, v))) && set.members[v] == old(set.members[v]))
+//@     invariant rangeindex == 0 ==> (forall v Value :: v != members[0].Value ==> (has(set.members, v) <==> old(has(set.members, v))) && set.members[v] == old(set.members[v]))
+//@     invariant rangeindex == 0 ==> lower(policy) != "nx"
+//@     invariant rangeindex == 0 && lower(policy) != "nx" ==> old(has(set.members, members[0].Value)) && has(set.members, members[0].Value) && set.members[members[0].Value].Score == old(set.members[members[0].Value].Score) + members[0].Score
 //@   loop 1
 //@     invariant -1 <= rangeindex && rangeindex < len(members) && inv(set, alloc) && inv(set, exists) && set.members == old(set.members)
 //@     invariant lower(policy) != "nx" && lower(policy) != "xx" ==> (forall i int :: 0 <= i && i <= rangeindex ==> has(set.members, members[i].Value))
@@ -186,3 +195,41 @@ package sorted_set
 //@     invariant start <= i && i <= stop + 1 && deletedCount == i - start && stop < len(members) && 0 <= start && inv(set, alloc) && inv(set, exists)
 //@   loop 1
 //@     invariant stop <= i && i <= start + 1 && deletedCount == i - stop && start < len(members) && 0 <= stop && inv(set, alloc) && inv(set, exists)
+
+// ---- ZCARD / ZREM / ZSCORE / ZINCRBY ----------------------------------------------------------
+//@ spec onzset(params internal.HandlerFuncParams) bool = old(zlive(params, zkey(params))) && old(iszset(zval(params, zkey(params))))
+//@ spec zwf(s *SortedSet) bool = s != nil && !fresh(s) && inv(s, alloc) && inv(s, exists) && !fresh(s.members)
+//@ spec zmembers(params internal.HandlerFuncParams) map[Value]MemberObject = aszset(zval(params, zkey(params))).members
+//@ spec zstore(params internal.HandlerFuncParams) map[string]internal.KeyData = $srv.store[dbof(params.Context)]
+//@ spec zset0(params internal.HandlerFuncParams) *SortedSet = old(aszset(zval(params, zkey(params))))
+//@ spec zpure(params internal.HandlerFuncParams) bool = forall k string :: has(zstore(params), k) ==> old(has(zstore(params), k)) && zstore(params)[k] == old(zstore(params)[k])
+//@ spec znamed(params internal.HandlerFuncParams, v Value, from int) bool = exists i int :: 0 <= i && i < len(params.Command) - from && Value(old(params.Command[from:][i])) == v
+
+//@ func handleZCARD props C17,C12,C13
+//@   requires generic.henv(params)
+//@   assumes own-cmd: len(params.Command) >= 2 ==> disjointarr(params.Command, $srv.keysWithExpiry.keys[dbof(params.Context)])
+//@   assumes stored-wf: len(params.Command) >= 2 && iszset(zval(params, zkey(params))) ==> zwf(aszset(zval(params, zkey(params))))
+//@   ensures {C17} arity: len(params.Command) != 2 ==> result1 != nil
+//@   ensures {C17} absent: len(params.Command) == 2 && !old(zlive(params, zkey(params))) ==> result1 == nil && bstr(result0) == ":0\r\n"
+//@   ensures {C17} wrongtype: len(params.Command) == 2 && old(zlive(params, zkey(params))) && !old(iszset(zval(params, zkey(params)))) ==> result1 != nil
+//@   ensures {C17} card: len(params.Command) == 2 && onzset(params) ==> result1 == nil && bstr(result0) == ":" ++ (itoa(old(len(zmembers(params)))) ++ "\r\n")
+//@   ensures {C13,C17} pure: zpure(params)
+//@   ensures {C13,C17} content: onzset(params) ==> (forall v Value :: (has(old(aszset(zval(params, zkey(params)))).members, v) <==> old(has(zmembers(params), v))) && old(aszset(zval(params, zkey(params)))).members[v] == old(zmembers(params)[v]))
+
+// ZREM key member [member ...]: exactly the named members go; the reply is the number removed.
+//@ func handleZREM props C17,C12
+//@   requires generic.henv(params)
+//@   assumes own-cmd: len(params.Command) >= 2 ==> disjointarr(params.Command, $srv.keysWithExpiry.keys[dbof(params.Context)])
+//@   assumes stored-wf: len(params.Command) >= 2 && iszset(zval(params, zkey(params))) ==> zwf(aszset(zval(params, zkey(params))))
+//@   ensures {C17} arity: len(params.Command) < 3 ==> result1 != nil
+//@   ensures {C17} absent: len(params.Command) >= 3 && !old(zlive(params, zkey(params))) ==> result1 == nil && bstr(result0) == ":0\r\n"
+//@   ensures {C17} wrongtype: len(params.Command) >= 3 && old(zlive(params, zkey(params))) && !old(iszset(zval(params, zkey(params)))) ==> result1 != nil
+//@   ensures {C17} removed: len(params.Command) >= 3 && onzset(params) ==> result1 == nil && (forall v Value :: has(zmembers(params), v) <==> (old(has(zmembers(params), v)) && !znamed(params, v, 2))) && bstr(result0) == ":" ++ (itoa(old(len(zmembers(params))) - len(zmembers(params))) ++ "\r\n")
+//@   ensures {C17} kept: len(params.Command) >= 3 && onzset(params) ==> (forall v Value :: has(zmembers(params), v) ==> zmembers(params)[v] == old(zmembers(params)[v]))
+//@   ensures {C17,C20} keys: zpure(params)
+//@   loop 0
+//@     invariant onzset(params) && set == zset0(params) && inv(zset0(params), alloc) && inv(zset0(params), exists) && zset0(params).members == old(zmembers(params)) && -1 <= rangeindex && rangeindex < len(rangeslice) && len(rangeslice) == len(params.Command) - 2 && zpure(params)
+//@     invariant forall j int :: 0 <= j && j < len(rangeslice) ==> rangeslice[j] == old(params.Command[2:][j])
+//@     invariant forall v Value :: has(zset0(params).members, v) <==> (old(has(zmembers(params), v)) && !(exists i int :: 0 <= i && i <= rangeindex && Value(old(params.Command[2:][i])) == v))
+//@     invariant forall v Value :: has(zset0(params).members, v) ==> zset0(params).members[v] == old(zmembers(params)[v])
+//@     invariant deletedCount == old(len(zmembers(params))) - len(zset0(params).members)
